@@ -47,6 +47,7 @@ def plan(tier: str, seed: int):
     shards.append({"kind": "decoder", "seed": seed})
     shards.append({"kind": "scalars", "seed": seed, "n": 40 if tier == "quick" else 2000})
     shards.append({"kind": "rejects"})
+    shards.append({"kind": "streams", "seed": seed})
     shards.append({"kind": "w0"})
     return shards
 
@@ -322,7 +323,67 @@ def run_shard(shard) -> Result:
         res.sample({"decoder_input": "8080808080808080808001", "note": "11-byte varint must be rejected"})
     elif k == "scalars":
         _scalars(bp, res, shard)
+    elif k == "streams":
+        _streams(bp, res, shard)
     return res
+
+
+class _KeepingSink:
+    """a writer that keeps the very objects it is handed (a list-collecting transport / mock): what was written must
+    not change afterwards"""
+
+    def __init__(self):
+        self.chunks = []
+
+    def write(self, b):
+        self.chunks.append(b)
+        return len(b)
+
+    def value(self) -> bytes:
+        return b"".join(bytes(c) for c in self.chunks)
+
+
+def _streams(bp, res: Result, shard):
+    """dump_varint / load_varint as STREAM primitives: several values through one stream, sinks that keep what they
+    are given, readers that buffer (a varint may straddle a refill boundary)"""
+    rng = random.Random(f"c16-streams-{shard['seed']}")
+    for rep in range(40):
+        vals = [rng.choice([0, 1, 127, 128, 300, 2**31, 2**32 - 1, 2**63 - 1, 2**64 - 1, -1, -(2**63), rng.getrandbits(rng.randint(1, 64))])
+                for _ in range(rng.randint(2, 40))]
+        exp = b"".join(spec.enc_varint(v) for v in vals)
+        w = {"kind": "streams", "seed": shard["seed"]}
+        for sink_name, sink in (("BytesIO", io.BytesIO()), ("keeping-sink", _KeepingSink())):
+            res.counters["stream_writes"] += len(vals)
+            try:
+                for v in vals:
+                    bp.dump_varint(v, sink)
+                got = sink.getvalue() if sink_name == "BytesIO" else sink.value()
+            except Exception as e:
+                res.violation("encode-total", ["dump_varint", sink_name, "raised:" + type(e).__name__], f"dump_varint sequence {vals[:6]}..: {e!r}", w)
+                continue
+            if got != exp:
+                res.violation("encode-canonical", ["dump_varint", sink_name, "stream-content-differs"],
+                              f"dump_varint of {vals[:8]}.. into a {sink_name}: {got.hex()[:80]} expected {exp.hex()[:80]}", w)
+        want = [(v & spec.MASK64) for v in vals]
+        pad = bytes(rng.randint(0, 3))  # zero bytes = the varint 0: shifts where the refill boundaries fall
+        data = pad + exp
+        for rname, mk in (("BytesIO", lambda: io.BytesIO(data)),
+                          ("BufferedReader-8", lambda: io.BufferedReader(io.BytesIO(data), buffer_size=8)),
+                          ("BufferedReader-13", lambda: io.BufferedReader(io.BytesIO(data), buffer_size=13)),
+                          ("BufferedReader-64", lambda: io.BufferedReader(io.BytesIO(data), buffer_size=64))):
+            res.counters["stream_reads"] += len(vals)
+            try:
+                st = mk()
+                got = [bp.load_varint(st)[0] for _ in range(len(pad) + len(vals))][len(pad):]
+                rest = st.read()
+            except Exception as e:
+                res.violation("decode", ["load_varint", rname, "raised:" + type(e).__name__],
+                              f"load_varint over a healthy stream of {len(vals)} varints ({rname}): {e!r}", w)
+                continue
+            if got != want or rest != b"":
+                res.violation("decode", ["load_varint", rname, "values-or-position-differ"],
+                              f"load_varint over {rname}: {got[:6]} expected {want[:6]}, {len(rest)} bytes left", w)
+        res.case(f"streams:{rep}:{len(vals)}")
 
 
 def _scalars(bp, res: Result, shard):
@@ -400,6 +461,8 @@ def replay(w):
         _check_reject_low(bp, res, int(w["x"]))
     elif w["kind"] == "dec":
         _check_decoder_input(bp, res, bytes.fromhex(w["b"]))
+    elif w["kind"] == "streams":
+        _streams(bp, res, {"seed": w["seed"]})
     elif w["kind"] == "decoff":
         _check_decoder_offsets(bp, res)
     elif w["kind"] == "scalar" and w.get("shard"):
